@@ -135,6 +135,11 @@ func (s *server) createSchedule(c *gin.Context) {
 		return
 	}
 
+	if err := s.api.ValidatePromiseIdTemplate(body.PromiseId); err != nil {
+		c.JSON(s.code(err.Code), gin.H{"error": err})
+		return
+	}
+
 	res, err := s.api.Process(header.RequestId, &t_api.Request{
 		Kind: t_api.CreateSchedule,
 		CreateSchedule: &t_api.CreateScheduleRequest{
